@@ -160,6 +160,10 @@ def run(tier, rep):
                                   % (it["py"], p[0], p[1], p[2], p[3], it["cstruct"], c[0], c[1], c[2], c[3]), {"item": it["py"], "c": c, "py": p})
                 elif pr["rw"] not in ("ok", "skip"):
                     rep.violation("rw:%s.%s" % (it["cstruct"], c[0]), "write/read through %s.%s and struct %s.%s: %s" % (it["py"], p[0], it["cstruct"], c[0], pr["rw"]), pr)
+            for sg in it.get("signs", []):
+                rep.violation("sign:%s.%s" % (it["cstruct"], sg[1]),
+                              "public Python field %s.%s is %s while the C member of struct %s is %s (values from 2^31 on read back with the wrong sign)"
+                              % (sg[0], sg[1], sg[2], it["cstruct"], sg[3]), {"item": it["py"], "field": sg[1]})
             for u in it["unmatched"]:
                 rep.violation("unmatched:%s.%s" % (it["cstruct"], u), "Python field %s.%s has no member of that name in struct %s" % (it["py"], u, it["cstruct"]), {"item": it["py"], "field": u})
             if it["csize"] != it["psize"] and it["py"] not in PREFIX_ONLY:
